@@ -163,7 +163,9 @@ func (eval Evaluator) PartialTracesSum(ctIn *Ciphertext, offset, n int, opOut *C
 
 	ringQ := ringQP.RingQ
 
-	opOut.Resize(opOut.Degree(), levelQ)
+	// The result has the degree of the input: a receiver of larger degree must
+	// not keep components of what it held before.
+	opOut.Resize(ctIn.Degree(), levelQ)
 	*opOut.MetaData = *ctIn.MetaData
 
 	ctInNTT, err := NewCiphertextAtLevelFromPoly(levelQ, eval.BuffCt.Value[:2])
